@@ -6,11 +6,11 @@ M=[]
 def ben(name, checks, file, old, new, note): M.append(dict(name=name,checks=checks,file=file,old=old,new=new,note=note))
 K='kvs/distlock/kvlock.go'
 ben('renew-at-third-of-lease',['C05','C01','C04'],K,
- '''	newFuture := timeout.Call(func() { l.supportTimeout(r.Version) }, l.dlp.leaseTTL/2)''',
- '''	newFuture := timeout.Call(func() { l.supportTimeout(r.Version) }, l.dlp.leaseTTL/3)''','renewal re-armed at leaseTTL/3 (more often than necessary)')
+ '''	newFuture := l.renewIn(r.Version, l.dlp.leaseTTL/2)''',
+ '''	newFuture := l.renewIn(r.Version, l.dlp.leaseTTL/3)''','renewal re-armed at leaseTTL/3 (more often than necessary)')
 ben('retry-interval-sixteenth',['C05'],K,
- '''		newFuture := timeout.Call(func() { l.supportTimeout(ver) }, l.dlp.leaseTTL/8)''',
- '''		newFuture := timeout.Call(func() { l.supportTimeout(ver) }, l.dlp.leaseTTL/16)''','retry after a transient renewal error sooner')
+ '''		newFuture := l.renewIn(ver, l.dlp.leaseTTL/8)''',
+ '''		newFuture := l.renewIn(ver, l.dlp.leaseTTL/16)''','retry after a transient renewal error sooner')
 ben('unlock-without-cancel',['C05','C04','C01'],K,
  '''	future := l.future.Load().(timeout.Future)
 	future.Cancel()
